@@ -170,6 +170,7 @@ func runHistMigScenario(r *lib.Run, idx int) {
 	}
 	var runs []histRun
 	keepRet := false
+	unrecorded := false // some start ended with an error: whatever it did is not in the progress record
 	var narrower *uint64
 	completed := false
 	firstLogLen := w.rec.LogLen()
@@ -227,6 +228,9 @@ func runHistMigScenario(r *lib.Run, idx int) {
 		runs = append(runs, hr)
 		w.logf("migration start #%d: retained=%d %s@%d -> %d commits, interrupted=%v err=%v", i+1, ret, hr.Interrupt, hr.AtCommit, hr.Commits, interrupted, err)
 		if interrupted {
+			if hr.Interrupt == "commit-error" || (err != nil && ctx.Err() == nil) {
+				unrecorded = true
+			}
 			r.Count("history_pruner_migration_runs_interrupted:"+hr.Interrupt, 1)
 			if st, e := migration.GetIntermediateState(w.rec, 0); e == nil && len(st) == 24 {
 				r.Count("history_pruner_migration_progress_records_written", 1)
@@ -253,6 +257,11 @@ func runHistMigScenario(r *lib.Run, idx int) {
 			case newState && notFound && strings.Contains(err.Error(), "history at block"):
 				// the migration only knows the legacy history buckets
 				class = "history-pruner-migration:fails-on-new-state-database:history-record-not-found"
+			case !newState && notFound && unrecorded && (strings.Contains(err.Error(), "running stager") || strings.Contains(err.Error(), "running restorer")):
+				// an earlier start ended with a write error: like a process death it leaves no (or a stale)
+				// progress record while its destructive steps are committed - the open finding about
+				// unrecorded progress, reached without a crash image
+				class = "history-pruner-migration:killed-mid-run:restart-with-same-retention:cannot-finish(history-or-scratch-already-wiped)"
 			case notFound && strings.Contains(err.Error(), "setting up before restorer") && pivot >= ret && pivot-ret == 0:
 				// cutoff = block 0: nothing to prune, yet the lookups are wiped and the header of block "-1" is asked for
 				class = "history-pruner-migration:fails:cutoff-is-block-0"
